@@ -102,3 +102,74 @@ def run(ctx, design=True):
 def replay(ctx, path):
     j = runner.TraceJob("replay", "ConvTrace", None, {"Lens": core.tla_set([ctx.prop])}, replay=_rerun(ctx), boundary=lambda e: e.get("ev") == "creset")
     return runner.replay_dir(ctx, path, j)
+
+
+# ---- DHCPv6 ------------------------------------------------------------------------------------------------
+CHAINS6 = 4
+DESIGN6 = ["Conv6_typical.cfg", "Conv6_nosid.cfg", "Conv6_prefixfirst.cfg"]
+NAMES6 = ["typical6", "nosid6", "prefixfirst6", "filelast6"]
+
+
+def _rerun6(ctx0):
+    def f(ctx, scenario, out):
+        evs = [json.loads(line) for line in open(scenario)]
+        c = NAMES6.index(evs[0].get("name", "typical6"))
+        want = [(e["c"], e["mt"], e["sid"], e["na"], e["pd"]) for e in evs if e["ev"] == "c6msg"]
+        wd = ctx.scratch.sub("conv6-rerun")
+        tmp = os.path.join(wd, "all.ndjson")
+        core.run_harness(ctx.need_harness(), ["conv6", "-chain", c, "-seed", ctx.seed, "-walks", 300 if ctx.quick else 4000, "-out", tmp, "-dir", os.path.join(wd, "d")], wd, timeout=1800)
+        cur, keep = [], None
+        for line in list(open(tmp)) + ['{"ev": "c6reset"}']:
+            e = json.loads(line)
+            if e["ev"] == "c6reset":
+                if keep is None and cur and [(x["c"], x["mt"], x["sid"], x["na"], x["pd"]) for x in cur[1:]][:len(want)] == want:
+                    keep = cur
+                cur = [e]
+            else:
+                cur.append(e)
+        if keep is None:
+            raise Infra("the saved DHCPv6 conversation was not found in the re-run")
+        with open(out, "w") as g:
+            for e in keep:
+                g.write(json.dumps(e) + "\n")
+    return f
+
+
+def run6(ctx, design=True):
+    """DHCPv6 whole chains: design checks + conformance under the property's lens (verdict) and CONV6 (drift)."""
+    if design:
+        for cfg in DESIGN6[:1] if ctx.quick else DESIGN6:
+            ctx.design("Conv6MC.tla", cfg, workers=4)
+        if not ctx.quick:
+            ctx.design("Conv6MC.tla", "Conv6_prefixfirst_binds.cfg", expect_fail="DiscardedMessagesBindNothing")
+    h = ctx.need_harness()
+    wd = ctx.scratch.sub("conv6")
+
+    def one(c):
+        out = os.path.join(wd, "conv6-%d.ndjson" % c)
+        core.run_harness(h, ["conv6", "-chain", c, "-seed", ctx.seed, "-walks", 300 if ctx.quick else 4000, "-out", out, "-dir", os.path.join(wd, "d%d" % c)], wd, timeout=1800)
+        return out
+
+    with concurrent.futures.ThreadPoolExecutor(max_workers=CHAINS6) as ex:
+        outs = list(ex.map(one, range(CHAINS6)))
+    t = os.path.join(wd, "conv6.ndjson")
+    with open(t, "w") as f:
+        for o in outs:
+            f.write(open(o).read())
+            os.remove(o)
+    msgs = sum(1 for line in open(t) if '"ev":"c6msg"' in line)
+    if msgs == 0:
+        raise Infra("the DHCPv6 conversation run recorded no message")
+    job = runner.TraceJob("conv6", "Conv6Trace", t, {"Lens": core.tla_set([ctx.prop])}, chunk=20000, replay=_rerun6(ctx),
+                          boundary=lambda e: e.get("ev") == "c6reset", meta={"family": "conv6"})
+    runner.run_job(ctx, job)
+    ev, tr = ctx.events, ctx.traces_ok
+    drift = runner.TraceJob("conv6-all", "Conv6Trace", t, {"Lens": core.tla_set(["CONV6"])}, chunk=20000, boundary=lambda e: e.get("ev") == "c6reset", drift=True)
+    runner.run_job(ctx, drift)
+    ctx.events, ctx.traces_ok = ev, tr
+    return {"dhcpv6_conversation_messages_through_whole_chains": msgs, "dhcpv6_chains": CHAINS6}
+
+
+def replay6(ctx, path):
+    j = runner.TraceJob("replay", "Conv6Trace", None, {"Lens": core.tla_set([ctx.prop])}, replay=_rerun6(ctx), boundary=lambda e: e.get("ev") == "c6reset")
+    return runner.replay_dir(ctx, path, j)
